@@ -65,6 +65,9 @@ fn main() {
     if sub == "c09-child" {
         c09::child(&args);
     }
+    if sub == "c16-child" {
+        c16::child(&args);
+    }
     if sub == "c17-child" {
         c17::child(&args);
     }
